@@ -43,7 +43,7 @@ func runC16(c *Ctx) {
 	if opensslPath() == "" {
 		c.Rep.Extra["openssl_note"] = "openssl CLI not found: only the repository fixtures are checked"
 	} else {
-		reps := c.N(2, 20)
+		reps := c.N(2, 60)
 		for i, cf := range confs {
 			for r := 0; r < reps; r++ {
 				bits := 2048
